@@ -299,7 +299,7 @@ def clearkey_requests(_):
     return acc
 
 
-KEY_OPS = ['add key (PUT computed)', 'add key (POST form)', 'edit key 1', 'delete the key used by the encrypted files',
+KEY_OPS = ['add key (PUT computed)', 'add key (POST form)', 'add key (POST form, kid typed in upper case)', 'edit key 1', 'delete the key used by the encrypted files',
            'delete the key used by the encrypted files (POST form)', 'delete the unused key (POST form)',
            'add key (PUT explicit, duplicate kid)']
 
